@@ -23,8 +23,8 @@ reference exactly.
 """
 ID = "C10"
 LEVEL = "proof"
-# translator tie: the cctype kernels are regenerated from the current headers on every run (coq/C10/GenEquiv.v)
-TRANSLATE = [("translate/kernels_cctype.json", "coq/Gen/Gen_cctype.v")]
+# translator tie: the cctype kernels and the overflow checkers' call operators are regenerated from the current headers on every run (coq/C10/GenEquiv.v)
+TRANSLATE = [("translate/kernels_cctype.json", "coq/Gen/Gen_cctype.v"), ("translate/kernels_strconv.json", "coq/Gen/Gen_strconv.v")]
 UBTRAP = ["-fsanitize=signed-integer-overflow,integer-divide-by-zero", "-fsanitize-undefined-trap-on-error"]
 HARNESSES = [
     {"name": "main", "src": "harness.cpp", "flags": ["-O1", "-DTETL_ENABLE_CONTRACT_CHECKS=1"] + UBTRAP},
